@@ -14,7 +14,7 @@ const (
 	tServiceError  = an.Mod + "/pkg.ServiceError"
 	tHTTPErrorResp = an.Mod + "/http.ErrorResponse"
 	tGRPCErrorResp = an.Mod + "/grpc/pb.ErrorResponse"
-	explanationC18 = "Decides structural necessary conditions of C18 on the source: (R18.1) MergeErrors' nil-identity rows and per-field merge operators (flags stored as the conjunction of both operands, message concatenated left-to-right, history appended in order, causes joined from both sides, name replaced only for the generic name) on every path of its SSA path table; (R18.2) the HTTP status decision table of ErrorResponse.StatusCode over all 8 flag vectors x special name; (R18.3) the gRPC code table of EncodeError over all flag vectors and error kinds; (R18.4) like-named field fidelity and exhaustiveness of the four wire conversions (http.NewErrorResponse, ErrorResponse.MarshalXML, grpc.NewErrorResponse, grpc.NewServiceError); (R18.5) the client-side classification table of ErrInvalidResponse. NOT decided: associativity of merging as a semantic law over arbitrary groupings (it follows from the checked operators being associative, an argument not a machine proof), the behaviour of errors.Join/errors.As, and value-level round trips."
+	explanationC18 = "Decides structural necessary conditions of C18 on the source: (R18.1) MergeErrors' nil-identity rows and per-field merge operators (flags stored as the conjunction of both operands, message concatenated left-to-right, history appended in order, causes joined from both sides, name replaced only for the generic name) on every path of its SSA path table; (R18.2) the HTTP status decision table of ErrorResponse.StatusCode over all 8 flag vectors x special name; (R18.3) the gRPC code table of EncodeError over all flag vectors and error kinds; (R18.4) like-named field fidelity and exhaustiveness of the four wire conversions (http.NewErrorResponse, ErrorResponse.MarshalXML, grpc.NewErrorResponse, grpc.NewServiceError); (R18.5) the client-side classification table of ErrInvalidResponse. shared R10.3 (decode failures in the gRPC handlers: service errors unchanged, others InvalidArgument, same rows for unary and stream). NOT decided: associativity of merging as a semantic law over arbitrary groupings (it follows from the checked operators being associative, an argument not a machine proof), the behaviour of errors.Join/errors.As, and value-level round trips."
 )
 
 var (
@@ -28,6 +28,7 @@ func runC18(c *an.Ctx) string {
 	grpcCodeTable(c, "R18.3")
 	errorFieldFidelity(c, "R18.4")
 	r185ErrInvalidResponse(c)
+	r103Handlers(c) // shared with C10 (rule id R10.3): a service error from the request decoder travels unchanged to the error encoder, anything else becomes InvalidArgument, in the unary and the stream handler alike
 	return explanationC18
 }
 
@@ -500,7 +501,17 @@ func errorFieldFidelity(c *an.Ctx, rule string) {
 						ok = true
 					}
 				}
-				if len(p.Ret) != 1 || !strings.Contains(p.Ret[0], "NewErrorResponse(") || !strings.Contains(p.Ret[0], "pkg.Fault(") {
+				// the response is built from the fault: by calling itself on it, or field by field
+				recursive := len(p.Ret) == 1 && strings.Contains(p.Ret[0], "NewErrorResponse(") && strings.Contains(p.Ret[0], "pkg.Fault(")
+				fieldwise := len(p.Ret) == 1
+				if fieldwise {
+					for _, fld := range []string{"Name", "Fault"} {
+						if v, has := p.Field(p.Ret[0], fld); !has || !strings.HasPrefix(v, "pkg.Fault(") {
+							fieldwise = false
+						}
+					}
+				}
+				if !recursive && !fieldwise {
 					ok = false
 				}
 			}
